@@ -424,6 +424,41 @@ func (chkC05) CheckTrans(t *TransCtx) []Viol {
 		return nil
 	}
 	w := t.W
+	// "a tenant stops paying the moment a lease ends": what a deployment's escrow account transfers away in one transaction
+	// is bounded by the prices of the leases that were ACTIVE before it, for the blocks since the account was last settled
+	// (leases created by this very transaction start now and cost nothing yet). Round-9 seed C05-14: the per-block rate was
+	// summed over closed payments too; lease and payment were both closed, every pairwise join held, the tenant kept paying.
+	canon := func(o string) string {
+		if a, err := sdk.AccAddressFromBech32(o); err == nil {
+			return a.String()
+		}
+		return o
+	}
+	for k, a := range t.Pre.Accounts {
+		b, ok := t.Post.Accounts[k]
+		if !ok || a.ID.Scope != "deployment" || a.State != etypes.AccountOpen {
+			continue
+		}
+		paid := i64(b.Transferred) - i64(a.Transferred)
+		blocks := t.Post.Height - a.SettledAt
+		if blocks < 0 {
+			blocks = 0
+		}
+		parts := strings.Split(a.ID.XID, "/")
+		if len(parts) != 2 {
+			continue
+		}
+		bound := int64(0)
+		for _, l := range t.Pre.Leases {
+			if l.State == mtypes.LeaseActive && canon(l.LeaseID.Owner) == canon(parts[0]) && fmt.Sprint(l.LeaseID.DSeq) == parts[1] {
+				bound += i64(l.Price) * blocks
+			}
+		}
+		if paid > bound {
+			out = append(out, Viol{"C05.stops-paying-when-lease-ends", "paid-beyond-active-leases:" + t.Act.Kind,
+				fmt.Sprintf("%s: escrow account %s transferred %d in this transaction, but the leases active before it account for at most %d over the %d blocks since its last settlement: the tenant is paying for a lease that has ended", t.Act.Name, shortKey(w, k), paid, bound, blocks)})
+		}
+	}
 	// deposits are returned exactly when the bid / the deployment ends
 	gain := map[string]int64{}
 	for k, a := range t.Pre.Accounts {
